@@ -22,6 +22,7 @@ BOUNDS = {
     "quick": "m,n<=4 (tall, square, wide, m=1); all 2^n zero-column masks x 5 entry classes; every duplicated-column pair; ranks 0..min via products",
     "thorough": "m,n<=6, 3 fill rows",
 }
+THOROUGH_STREAMS = 8
 WALL_BUDGET = {"quick": 300, "thorough": 2400}
 ASSUMPTIONS = ["clause oracle only (QR is unique up to phases): Q^H Q = I, R upper trapezoidal, A = QR to 2^10 u ||A||"]
 
@@ -52,6 +53,34 @@ def base_matrix(cls, m, n, fill):
     else:
         A = fill.quat(m, n, bits=5, lo=-60, hi=60)
     return A
+
+
+def householder_steps(A):
+    """Quaternion Householder QR without pivoting, simulated in the oracle's arithmetic: for each step j < min(m,n) the norm of the
+    sub-column that the j-th reflector has to reduce (relative to ||A||_F) and whether it is EXACTLY zero (an exactly-zero
+    sub-column stays exactly zero under every earlier reflector and needs no reflector; a negligible but non-zero one is where the
+    real QR of the embedding stops being unique)."""
+    W = np.array(A, dtype=float, copy=True)
+    m, n, _ = W.shape
+    scale = max(O.fro(W), 1e-300)
+    out = []
+    for j in range(min(m, n)):
+        x = W[j:, j : j + 1]
+        nx = O.fro(x)
+        out.append((nx / scale, not x.any()))
+        if nx <= 1e-11 * scale or j == m - 1:
+            continue
+        x0 = x[0, 0]
+        a0 = O.qabs(x0)
+        phase = x0 / a0 if a0 > 0 else np.array([1.0, 0, 0, 0])
+        u = x.copy()
+        u[0, 0] = x0 + phase * nx
+        nu2 = O.fro(u) ** 2
+        if nu2 == 0:
+            continue
+        sub = W[j:, j:]
+        W[j:, j:] = sub - (2.0 / nu2) * O.qmatmul(u, O.qmatmul(O.qH(u), sub))
+    return out
 
 
 def cases(tier, seed):
@@ -136,12 +165,18 @@ def run_case(case, seed):
     lead_rk = O.rank(A[:, : min(m, n)]) if A[:, : min(m, n)].size else 0
     k = min(m, n)
     nz_lead = sum(1 for j in range(k) if A[:, j].any())
+    # (noisy_step: after exactly-zero columns have used up pivot rows, the REMAINING rows of the later columns can be dependent although
+    #  the full columns are not - e.g. a zero first column and a singular trailing (m-1) x (n-1) block; same mechanism)
     # 'finding_zone': the leading columns are rank deficient in a way that makes the real QR non-unique AND
     # (as observed on the pinned tree) breaks the contraction: a dependency among NON-ZERO leading columns, or any
     # leading deficiency of a wide input.  Exactly-zero leading columns of tall/square inputs are handled correctly.
     lead_dep = nz_lead - lead_rk
+    steps = householder_steps(A)
+    # a negligible sub-column is harmless only if the whole INPUT column is exactly zero (then it stays exactly zero in any arithmetic);
+    # a sub-column that vanishes through cancellation is noise in LAPACK's arithmetic even when this simulation gets an exact 0
+    noisy_step = any((rel <= 1e-10 and A[:, j].any()) for j, (rel, exact) in enumerate(steps))
     tags = {"wide": m < n, "coldef": n - rk, "rank": rk, "lead_def": k - lead_rk, "lead_dep": lead_dep,
-            "finding_zone": bool(lead_dep >= 1 or (m < n and k - lead_rk >= 1)), "kind": case["kind"], "m": m, "n": n}
+            "finding_zone": bool(lead_dep >= 1 or (m < n and k - lead_rk >= 1) or noisy_step), "kind": case["kind"], "m": m, "n": n}
     sv_ = O.svals(A[:, :k]) if k else np.zeros(0)
     cond_lead = float(sv_[0] / sv_[-1]) if len(sv_) and sv_[-1] > 0 else float("inf")
     tags["illcond"] = bool(lead_rk == k and cond_lead >= 2.0 ** 10)
